@@ -309,6 +309,17 @@ def run(prog: Program, chk: Check):
             p = fi.params()[-1]
             g = C.build(fi.node)
             hdr = [n for n in g.nodes if any((is_method_call(c, "write") and norm(recv_of(c)) in ("super()", "self") and c.args and path_of(c.args[0]) == p) for c in node_calls(n))]
+            # ... or hands the file every message of the buffer itself: self.fd.write / writelines of an expression built from an
+            # unfiltered generator / comprehension over the buffer
+            def whole_buffer(c_):
+                if not (is_method_call(c_, ("write", "writelines")) and norm(recv_of(c_)) == "self.fd" and c_.args):
+                    return False
+                for x_ in ast.walk(c_.args[0]):
+                    if isinstance(x_, (ast.GeneratorExp, ast.ListComp)) and len(x_.generators) == 1 and not x_.generators[0].ifs and path_of(x_.generators[0].iter) == p:
+                        return True
+                return False
+
+            hdr += [n for n in g.nodes if any(whole_buffer(c) for c in node_calls(n))]
             esc = flow.must_follow(g, [g.entry], hdr, exits=("exit",)) if hdr else [1]
             F.decide(not esc, fkey(fi, "writes-buffer-on-every-path"), where(fi), f"{ci.name}.{mn} writes the buffer headers on every path", f"{ci.name}.{mn} can return without writing the buffer")
             if ci.name == "QLFormatter" and mn == "finalize":
@@ -318,4 +329,51 @@ def run(prog: Program, chk: Check):
                 F.decide(okq, fkey(fi, "headers-offsets-data"), where(fi), "both branches write headers, then offsets, then data", "QLFormatter.finalize does not write headers -> offsets -> data on every path")
     if nsub < 3:
         raise AnalysisError(f"anchor vanished: expected >= 3 DataFormatter subclasses, found {nsub}")
+    # ---- J the JSON log is newline delimited across flushes -----------------------------------------------------------------------------------
+    # A data set is written in several flushes into one file.  Every record must carry its own terminator: a separator placed
+    # *between* the records of one flush (`"\n".join(...)`) leaves the last record of a flush and the first of the next on one line.
+    J = chk.rule("C17-J", "every record of the JSON formatter ends with its own newline (a terminator, not a separator between the records of one flush)", 1,
+                 "two flushes into the same file would join two documents on one line: the file no longer decodes line by line")
+    jci = next((c_ for c_ in prog.subclasses(base) if c_.name == "JsonFormatter"), None)
+    if jci is None:
+        raise AnalysisError("anchor vanished: JsonFormatter")
+
+    def ends_nl(e_):
+        if isinstance(e_, ast.Constant) and isinstance(e_.value, str):
+            return e_.value.endswith("\n")
+        if isinstance(e_, ast.BinOp) and isinstance(e_.op, ast.Add):
+            return ends_nl(e_.right)
+        if isinstance(e_, ast.JoinedStr) and e_.values:
+            return ends_nl(e_.values[-1])
+        return False
+
+    fmj = jci.methods.get("format_message")
+    rets_j = [r_ for r_ in walk_local(fmj.node) if isinstance(r_, ast.Return)] if fmj is not None else []
+    elem_term = bool(rets_j) and all(r_.value is not None and ends_nl(r_.value) for r_ in rets_j)
+    wj = jci.methods.get("write")
+    if wj is None:
+        J.decide(elem_term, fkey(fmj or jci.methods.get("finalize") or next(iter(jci.methods.values())), "record-terminated"), where(fmj) if fmj is not None else "",
+                 "format_message ends every record with a newline", "JsonFormatter.format_message does not end the record with a newline and nothing else adds one: records of successive flushes share a line")
+    else:
+        okj, whyj = False, "no write of the buffer found"
+        for c_ in calls_in(wj.node):
+            if is_method_call(c_, ("write", "writelines")) and norm(recv_of(c_)) == "self.fd" and c_.args:
+                a_ = c_.args[0]
+                trailing = False
+                if isinstance(a_, ast.BinOp) and isinstance(a_.op, ast.Add) and ends_nl(a_.right):
+                    trailing, a_ = True, a_.left
+                if isinstance(a_, ast.Call) and isinstance(a_.func, ast.Attribute) and a_.func.attr == "join" and isinstance(a_.func.value, ast.Constant) and a_.args:
+                    sep = a_.func.value.value
+                    gen_ = a_.args[0]
+                    el_ = gen_.elt if isinstance(gen_, (ast.GeneratorExp, ast.ListComp)) else None
+                    el_term = el_ is not None and (ends_nl(el_) or (elem_term and isinstance(el_, ast.Call) and is_method_call(el_, "format_message")))
+                    okj = (sep == "" and el_term) or (sep.endswith("\n") and trailing) or (el_term and sep == "")
+                    whyj = f"`{norm(c_)[:80]}` puts `{sep!r}` between the records of one flush" + ("" if trailing else " and nothing after the last one")
+                elif isinstance(a_, (ast.GeneratorExp, ast.ListComp)):
+                    el_ = a_.elt
+                    okj = ends_nl(el_) or (elem_term and isinstance(el_, ast.Call) and is_method_call(el_, "format_message"))
+                    whyj = "the written elements do not end with a newline"
+                else:
+                    okj, whyj = elem_term, "records are not newline terminated"
+        J.decide(okj, fkey(wj, "record-terminated"), where(wj), "every record written carries its own newline", f"JsonFormatter.write: {whyj}: the last record of a flush and the first of the next share a line")
     chk.units.update({"writer_role_functions": sorted(writer)[:12], "formatters": nsub})
